@@ -286,7 +286,7 @@ def emitValue : Nat → State N → Nat → Value N → Option String
 /-- `operator String()` of any value (value-operators.cpp:38-60 + Object::ToString overrides). -/
 def toStrH (st : State N) (v : Value N) : Option String :=
   match v with
-  | .arr _ | .dict _ => emitValue 40 st 1 v
+  | .arr _ | .dict _ => emitValue 16 st 1 v
   | v => some v.toStr
 
 /-! ### field access -/
